@@ -135,7 +135,7 @@ PROPS = {
         "assumptions": ["CPython subclass-first reflected rich comparison"],
     },
     "C18": {
-        "rules": ["T2", "R1", "R2", "P4", "P1"],
+        "rules": ["T2", "R1", "R2", "P4", "P1", "R4"],
         "decides": "every constructor parameter is stored under its own name so the signature-driven repr can read "
                    "it; repr skips exactly values equal to the parameter default and renders everything through "
                    "repr; no stray __repr__ overrides.",
